@@ -70,7 +70,12 @@ def main():
         if not skip_tests:
             junit = os.path.join(tmp, "junit.xml")
             env2 = dict(env)
-            env2["NUMBA_NUM_THREADS"] = "4"
+            if "--default-threads" in sys.argv:
+                env2.pop("NUMBA_NUM_THREADS", None)  # the pinned baseline command does not set it (16 here)
+                conf["suite_threads"] = "default"
+            else:
+                env2["NUMBA_NUM_THREADS"] = "4"
+                conf["suite_threads"] = "4"
             t = sh(["/venv/bin/python", "-m", "pytest", "-ra", "-q", "-p", "no:cacheprovider", "--timeout=900",
                     "--continue-on-collection-errors", "--junitxml=" + junit], env=env2, cwd=wt)
             passed = set()
